@@ -442,6 +442,51 @@ def rule_cgdescent(F, R):
             "interval_t constructor binds members to other arguments: %s" % binds)
 
 
+def rule_cgdescent_bracket(F, R, rule="R-C07-5"):
+    """the CG_DESCENT bracket [a, b] has phi'(b) >= 0 at rest. `interval.updateB()` (b = trial point) therefore needs either the must-fact
+    "the trial point is not descending" (the false edge of `c.has_descent(descent)`), or - when the trial is still descending but too high
+    (step U3 of Hager & Zhang) - the bisection `updateU(...)` that restores the invariant: it post-dominates the updateB call, or the call
+    sits in updateU's own loop. Otherwise done() meets b.g < 0, takes the search for finished and the solver adopts a point that may lie far
+    above the starting value."""
+    from ..cfg import must_dataflow
+    n = 0
+    for f in F.functions.values():
+        if f.body is None or f.relfile != "src/lsearchk/cgdescent.cpp" or not (f.cls or "").endswith("lsearchk_cgdescent_t"):
+            continue
+        ubs = [c for c in f.calls(lambda c: callee(c).endswith("interval_t::updateB"))]
+        if not ubs:
+            continue
+        cfg = f.cfg
+
+        def tedge(facts, b, k):
+            if b.cond is None or len(b.succ) != 2:
+                return
+            c = skip(b.cond)
+            if c["k"] == "call" and callee(c).endswith("::has_descent") and k == 1:
+                facts.add("nodescent")
+
+        def telem(facts, e):
+            if e.kind == "node" and e.node["k"] == "call" and (callee(e.node).endswith("lsearchk_cgdescent_t::move") or callee(e.node).endswith("lsearchk_t::update")):
+                facts.discard("nodescent")      # a new trial point
+        IN, before = must_dataflow(cfg, set(), telem, tedge)
+        uus = [c for c in f.calls(lambda c: callee(c).endswith("lsearchk_cgdescent_t::updateU"))]
+        for c in ubs:
+            n += 1
+            w = cfg.where_enclosing(c)
+            facts = before(*w) if w else None
+            ok = facts is not None and "nodescent" in facts
+            how = "the trial point is not descending"
+            if not ok and f.name == "updateU" and any(a_["k"] in ("for", "while") for a_ in f.ancestors(c)):
+                ok, how = True, "inside the bisection loop of updateU"
+            if not ok and any(cfg.where_enclosing(u) and cfg.postdominates(cfg.where_enclosing(u), w) for u in uus):
+                ok, how = True, "followed by updateU on every path"
+            R.check(ok, rule, "%s updateB@%d" % (f.name, c["l"]), f.loc(c), how,
+                    "`interval.updateB()` moves b to a trial point that may still be descending (phi'(b) < 0) and no updateU(...) follows on every path: the bracket invariant "
+                    "phi'(b) >= 0 is not restored, done() takes `b.g < 0` for a finished search and the line search reports success at a point that can lie far above the "
+                    "starting value")
+    R.floor(rule, n, 5, "updateB() calls in CG_DESCENT")
+
+
 def run(ctx):
     R = ctx.report
     F = ctx.facts(TUS)
@@ -466,4 +511,5 @@ def run(ctx):
     R.floor("R-C07-1+3", total, 9, "success returns")
     rule_get(F, R)
     rule_cgdescent(F, R)
+    rule_cgdescent_bracket(F, R)
     rule_predicates(F, R)
